@@ -127,6 +127,48 @@ def call_pool():
     return pool
 
 
+# a clean text that reads every piece of parser/lexer state an aborted or exception-ended parse could leave behind: array
+# declarators after a type-indexed dimension (`types`), chained transitions (`rootTransId`), comments (flex start condition)
+PROBE = ("const int N = 3; typedef int[0,N-1] id_t;\nint buf[N], head, tail; int grid[id_t][2]; /* c */ clock z;\n"
+         "process P(id_t i) { state A, B, C; init A; trans A -> B { guard z > 1 && buf[i] == head; assign buf[i] = 1, z = 0; }, "
+         "-> C { assign tail = 2; }, B -> A { }, -> C { }; }\nsystem P;")
+ABORT_TEXTS = [
+    "typedef int[0,3] id_t;\nint m[id_t][3]; int k[2][id_t]; /* note */ int w;",
+    "process Q() { state A, B, C; init A; trans A -> B { guard 1 > 0; }, -> C { assign w = 1; }, B -> C { }; } // end\nsystem Q;",
+    "int f(int a[2], int b) { int loc[3]; for (i : int[0,2]) { loc[i] = a[0] /* c */ + b; } return loc[0]; }",
+    "struct { int u[2]; int v; } s = { {1, 2}, 3 }; const string q = \"str\"; int x = (1 ? 2 : 3);",
+]
+DIAG_TEXTS = [  # two diagnostics whose ranges have four distinct boundaries; swept across 2^31-1 and 2^32-1
+    "int x; clock c;\nprocess P() { state S0, S1; init S0;\n trans S0 -> S1 { guard c >= zz; assign x = yy + 1; }; }\nsystem P;",
+]
+
+
+def gen_state_sequences(ctx):
+    """families aimed at state that survives a call: (1) a parse that ends at EVERY point of a text (end of input inside a
+    production, with a recording builder, a builder that rethrows the first diagnostic, and the PrettyPrinter), followed by the
+    probe; (2) a text with diagnostics placed at every offset relative to 2^31-1 (INT_MAX doubles as `unknown position`)."""
+    r = ctx.rng
+    seqs = []
+    probe = {"tag": "probe", "kind": "XTA", "a": 1, "b": 0, "input": PROBE}
+    for t in ABORT_TEXTS:
+        cuts = list(range(1, len(t) + 1))
+        if not ctx.thorough:
+            cuts = sorted(r.sample(cuts, 24))
+        for cut in cuts:
+            for kind, part in (("BLK", 0), ("EHT", 0), ("PPR", 0)):
+                seqs.append({"class": "aborted", "items": [{"tag": "aborted-" + kind, "kind": kind, "a": 1, "b": part, "input": t[:cut]}, probe]})
+    for t in DIAG_TEXTS:
+        ks = list(range(0, len(t) + 3))       # every placement: the boundary values are few and specific
+        for k in ks:
+            # parsed as a block the text starts exactly at the seeded counter (no built-in declarations in front of it)
+            seqs.append({"class": "sweep-2^31", "items": [{"seed": (1 << 31) - 1 - k}, {"tag": "sweep", "kind": "BLK", "a": 1, "b": 0, "input": t}]})
+        if ctx.thorough:
+            # the whole-document entry point parses the built-in declarations first (about 2300 characters)
+            for k in range(0, len(t) + 2600):
+                seqs.append({"class": "sweep-2^31", "items": [{"seed": (1 << 31) - 1 - k}, {"tag": "sweep", "kind": "XTA", "a": 1, "b": 0, "input": t}]})
+    return seqs
+
+
 def script_of(seq):
     out = []
     for item in seq:
@@ -306,7 +348,7 @@ def run(ctx):
     stats = {"calls": 0, "differences": 0, "by_tag": {}, "exceptions": {}, "calls_with_diagnostics": 0, "calls_crossing_2^31": 0,
              "calls_crossing_2^32": 0}
     wit = witness_sequences(pool)
-    seqs = wit + gen_sequences(ctx, pool)
+    seqs = wit + gen_state_sequences(ctx) + gen_sequences(ctx, pool)
     results = run_sequences(ctx, exe, seqs)
     seen = analyse(ctx, results, stats)
     # a seeded sample under the sanitizers (fork is slow there)
